@@ -5,6 +5,7 @@ CONSTANTS
   VarLong = 3
   Padding = FALSE
   RelFpuOK = FALSE
+  SelfKinds = {"labs", "lvar", "lrel"}
   Labels = {"la", "lb", "lc"}
   MaxItems = 12
   Fills = {1, 2, 3, 4, 119}
